@@ -68,6 +68,8 @@ pub struct ExecResult {
     pub stats: Stats,
     pub calls: u64,
     pub kind_counts: [u64; world::N_CALL_KINDS],
+    /// kind of every user-code call in order (recorded for C18 histories with macro events)
+    pub kind_log: Vec<(u8, u32)>,
     pub faults_fired: u32,
     pub fault_kind: Option<usize>,
     pub fault_step: Option<usize>,
@@ -149,6 +151,9 @@ struct Run<'a> {
     /// the simulated callback has failed once: from here on only the callback history (C15) is
     /// judged, every other oracle would be looking at an aborted operation
     soft: bool,
+    /// a hash index was found inconsistent after the injected fault: the object is not touched
+    /// again and is leaked instead of dropped (its Drop would run into undefined behaviour)
+    poisoned: bool,
     /// user-code calls one operation may make before the watchdog declares it non-terminating
     /// (grows with the configured capacity: purge, resize, clone and drop visit every entry)
     budget: u64,
@@ -199,7 +204,13 @@ impl<'a> Run<'a> {
         }
         let relaxed = self.faulted;
         match catch_unwind(AssertUnwindSafe(|| s.snapshot(relaxed))) {
-            Ok(a) => Some(a),
+            Ok(a) => {
+                if a.corrupt() {
+                    self.poisoned = true;
+                    self.stats.bump("index_left_inconsistent_by_interrupted_rehash");
+                }
+                Some(a)
+            }
             Err(p) => {
                 let (d, _, _) = panic_desc(p);
                 self.viol(
@@ -229,9 +240,13 @@ pub fn execute(t: &Trace, opts: Opts) -> ExecResult {
         log: Vec::new(),
         log_hash: 0xC0FFEE,
         soft: false,
+        poisoned: false,
         budget: EVENT_BUDGET + 256 * (t.header.sizes.iter().take(3).map(|x| (*x).min(1 << 20) as u64).sum::<u64>()),
     };
     world::set_cb_panic(t.cb_panic_at);
+    if t.prop == "C18" && t.faults.is_empty() && t.events.iter().any(|e| e.op.code == Code::Fill) {
+        world::record_kinds();
+    }
     let f1 = t.faults.first().copied().unwrap_or(0);
     let f2 = t.faults.get(1).copied().unwrap_or(0);
     alloc::begin_run(t.alloc);
@@ -353,6 +368,7 @@ pub fn execute(t: &Trace, opts: Opts) -> ExecResult {
     for (i, ev) in t.events.iter().enumerate() {
         let step = i as i64;
         let op = &ev.op;
+        world::set_event_idx(i as u32);
         run.stats.bump("events");
         if op.code == Code::Rehash {
             run.stats.bump("fault_fired:forced_rehash");
@@ -360,7 +376,7 @@ pub fn execute(t: &Trace, opts: Opts) -> ExecResult {
         if ev.observer {
             run.stats.bump("fault_fired:observer_call");
         }
-        if run.v.iter().filter(|v| v.prop == t.prop).count() >= 6 {
+        if run.v.iter().filter(|v| v.prop == t.prop).count() >= 6 || run.poisoned {
             break;
         }
         match op.code {
@@ -452,6 +468,7 @@ pub fn execute(t: &Trace, opts: Opts) -> ExecResult {
         }
     }
 
+    world::set_event_idx(u32::MAX);
     // ---- final drop (F2) --------------------------------------------------------------------
     let end = t.events.len() as i64;
     let dnop = Op::new(Code::DropTwin);
@@ -480,6 +497,7 @@ pub fn execute(t: &Trace, opts: Opts) -> ExecResult {
     }
     let calls = world::calls();
     let kind_counts = world::kind_counts();
+    let kind_log = world::take_kinds();
     let faults_fired = world::faults_fired();
     let fault_kind = world::fault_kind_fired();
     let rep = alloc::end_run();
@@ -524,6 +542,7 @@ pub fn execute(t: &Trace, opts: Opts) -> ExecResult {
         stats: run.stats,
         calls,
         kind_counts,
+        kind_log,
         faults_fired,
         fault_kind,
         fault_step: run.fault_step,
@@ -653,6 +672,11 @@ fn check_unchanged(run: &mut Run, slots: &mut [Option<Slot>], which: usize, step
 
 fn do_destroy(run: &mut Run, slots: &mut [Option<Slot>], which: usize, step: i64, op: &Op) {
     let mut sl = slots[which].take().unwrap();
+    if run.poisoned {
+        sl.s.leak();
+        drop(sl);
+        return;
+    }
     world::begin_event(run.budget * 4);
     let r = catch_unwind(AssertUnwindSafe(|| sl.s.destroy()));
     world::end_event();
